@@ -39,10 +39,17 @@ def plan(ctx):
     return jobs
 
 
+def _ymcw0(n):
+    """year-month-count-weekday with Sunday written 00, the form the project's own tests use"""
+    t = R.f_ymcw(n)
+    return t[:-2] + "00" if t.endswith("-07") else t
+
+
 def _variants():
     for s, (argsets, mk) in SRC.items():
         for k, a in enumerate(argsets):
             yield s, k, a, mk
+    yield "ymcw0", 0, [], _ymcw0
 
 
 def specs(ctx, shard, nshards):
@@ -113,8 +120,7 @@ def conv(ctx, shard, nshards):
 
 def replay(ctx, subname, case):
     s, k = case["src"], case["variant"]
-    a = SRC[s][0][k]
-    mk = SRC[s][1]
+    a, mk = next((a, mk) for s2, k2, a, mk in _variants() if (s2, k2) == (s, k))
     if case.get("kind") == "batch":
         days = list(range(case["n0"], case["n1"] + 1))
         fmt = case.get("tgt", FMT)
